@@ -58,7 +58,9 @@ JudgeLazy(B) ==
 JudgeOwner(B) ==
   Fails(<< <<"P:C14:owner-attrs-replace", B.after_rid = B.rank_rid /\ B.after_shape = B.rank_shape /\ B.after_dflt = B.rank_dflt>>,
            \* the shape the joined fiber reports still contains its coordinates (a fiber that declared a larger shape than the tensor keeps its room)
-           <<"P:C14:coord-in-shape", B.maxcoord < B.after_shape>> >>)
+           <<"P:C14:coord-in-shape", B.maxcoord < B.after_shape>>,
+           \* no explicit active range was ever set: the joined fiber's active range is its rank's whole shape, whatever the fiber reported before it joined
+           <<"P:C14:coord-in-active", B.after_act = <<0, B.after_shape>> >> >>)
 
 JudgeCtor(B) ==
   Fails(<< <<"P:C14:coord-in-shape", \A k \in 1..Len(B.fibers) : InShape(B.fibers[k])>>,
